@@ -1,4 +1,4 @@
-//go:build !noopt
+//go:build !no_dil_arith_vec
 
 package main
 
